@@ -179,6 +179,9 @@ func (w *World) opaqueMethodImpl(ov *OpaqueVal, name string) opaqueMethodFn {
 	if ov.name == "hash" {
 		return hashMethod(name)
 	}
+	if m := cipherMethod(ov, name); m != nil {
+		return m
+	}
 	if ov.name == "ctx" {
 		switch name {
 		case "Done":
